@@ -1701,6 +1701,13 @@ func stepCandidate(r *raft, m *pb.Message) error {
 		r.becomeFollower(m.GetTerm(), m.GetFrom()) // always m.Term == r.Term
 		r.handleSnapshot(m)
 	case myVoteRespType:
+		if r.state == StatePreCandidate && !m.GetReject() && m.GetTerm() != r.Term+1 {
+			// A pre-vote granted to some other pre-campaign of ours (a delayed or
+			// duplicated response that was granted for what is now our current
+			// term) says nothing about the term we are pre-campaigning for.
+			r.logger.Infof("%x [term %d] ignored a %s granted for term %d", r.id, r.Term, m.GetType(), m.GetTerm())
+			return nil
+		}
 		gr, rj, res := r.poll(m.GetFrom(), m.GetType(), !m.GetReject())
 		r.logger.Infof("%x has received %d %s votes and %d vote rejections", r.id, gr, m.GetType(), rj)
 		switch res {
